@@ -474,8 +474,9 @@ def rule_d(ctx, ix):
                     continue
                 n += 1
                 construct = '%s %s' % (f.construct, cache)
-                cmp_keys = [unparse(x.comparators[0]) for x in ast.walk(g.test) if isinstance(x, ast.Compare)
-                            and unparse(x.left) == '%s.%s[0]' % (s, cache) and isinstance(x.ops[0], ast.NotEq)]
+                stored0 = '%s.%s[0]' % (s, cache)
+                cmp_keys = [unparse(b_) for x in ast.walk(g.test) if isinstance(x, ast.Compare) and len(x.ops) == 1 and isinstance(x.ops[0], ast.NotEq)
+                            for a_, b_ in ((x.left, x.comparators[0]), (x.comparators[0], x.left)) if unparse(a_) == stored0]
                 ctx.ob(R, construct, 'the key compared before reuse is the key stored', cmp_keys == [unparse(key)],
                        detail='%s stores the cached value under `%s` but decides to reuse it by comparing with %s'
                               % (f.construct, unparse(key), cmp_keys), where=where(f, st))
